@@ -18,15 +18,45 @@
 (***************************************************************************)
 EXTENDS Naturals, Integers, TLC
 
-CONSTANTS PLens,       \* payload (ciphertext) lengths explored
-          Bufs,        \* caller buffer sizes
-          BUG          \* "none" | "cipher_buf" | "no_mac" | "no_crc" | "zero_read_skips_crc" | "eof_not_sticky" | "no_drain_at_end"
+CONSTANTS
+    \* @type: Set(Int);
+    PLens,       \* payload (ciphertext) lengths explored
+    \* @type: Set(Int);
+    Bufs,        \* caller buffer sizes
+    \* @type: Str;
+    BUG          \* "none" | "cipher_buf" | "no_mac" | "no_crc" | "zero_read_skips_crc" | "eof_not_sticky" | "no_drain_at_end"
 
-VARIABLES plen,        \* payload (ciphertext) length of this entry
-          kind,        \* "plain" | "zc" | "ae1" | "ae2"
-          dmg,         \* "none" | "data" | "crc" | "mac"
-          comp,        \* a decompressor sits between the cipher and the checksum (it may end before the ciphertext does)
-          remaining, cipherPos, macFed, macChecked, delivered, hashed, crcArmed, eof, failed, lastn, lastk
+VARIABLES
+    \* @type: Int;
+    plen,        \* payload (ciphertext) length of this entry
+    \* @type: Str;
+    kind,        \* "plain" | "zc" | "ae1" | "ae2"
+    \* @type: Str;
+    dmg,         \* "none" | "data" | "crc" | "mac"
+    \* @type: Bool;
+    comp,        \* a decompressor sits between the cipher and the checksum (it may end before the ciphertext does)
+    \* @type: Int;
+    remaining,
+    \* @type: Int;
+    cipherPos,
+    \* @type: Int;
+    macFed,
+    \* @type: Bool;
+    macChecked,
+    \* @type: Int;
+    delivered,
+    \* @type: Int;
+    hashed,
+    \* @type: Bool;
+    crcArmed,
+    \* @type: Bool;
+    eof,
+    \* @type: Bool;
+    failed,
+    \* @type: Int;
+    lastn,
+    \* @type: Int;
+    lastk
 vars == <<plen, kind, dmg, comp, remaining, cipherPos, macFed, macChecked, delivered, hashed, crcArmed, eof, failed, lastn, lastk>>
 
 Kinds == {"plain", "zc", "ae1", "ae2"}
